@@ -2,14 +2,16 @@ module verif
 
 go 1.26
 
-require github.com/tdewolff/minify/v2 v2.0.0
+require (
+	github.com/tdewolff/minify/v2 v2.0.0
+	github.com/tdewolff/parse/v2 v2.7.23
+)
 
 require (
 	github.com/djherbis/atime v1.1.0 // indirect
 	github.com/fsnotify/fsnotify v1.8.0 // indirect
 	github.com/matryer/try v0.0.0-20161228173917-9ac251b645a2 // indirect
 	github.com/tdewolff/argp v0.0.0-20250209172303-079abae893fb // indirect
-	github.com/tdewolff/parse/v2 v2.7.23 // indirect
 	golang.org/x/sys v0.30.0 // indirect
 )
 
